@@ -147,6 +147,19 @@ func oddObjects() []oddObj {
 			m["F"] = &i
 			return m
 		}()},
+		{"slice containing itself", func() interface{} {
+			rows := []interface{}{1, nil, "x"}
+			rows[1] = rows
+			return map[string]interface{}{"F": rows, "G": 2}
+		}()},
+		{"slices nested 100000 deep", func() interface{} {
+			var cur interface{} = []interface{}{1}
+			for i := 0; i < 100000; i++ {
+				cur = []interface{}{cur}
+			}
+			return struct{ F interface{} }{cur}
+		}()},
+		{"slice of maps of slices", struct{ F []interface{} }{[]interface{}{map[string]interface{}{"a": []interface{}{map[string]interface{}{"b": []interface{}{1, 2}}}}, []interface{}{[]interface{}{3}}}}},
 		{"self-referencing struct pointer", func() interface{} {
 			type node struct {
 				F    int
@@ -281,6 +294,10 @@ var c08LexEdges = []string{
 	"function", "function f", "function f(", "function f(a", "function f(a,", "function f(a) {", "function (a) {}", "function f(1) {}", "function f(a a) {}", "local", "local x", "local 1;", "return", "return;", "return return",
 	"switch", "switch (", "switch (1)", "switch (1) {", "switch (1) { case", "switch (1) { case 1", "switch (1) { case 1 {", "switch (1) { default", "switch (1) { default { } default { } }", "switch (1) { case 1, }", "switch (1) { 1 }",
 	"1 ?", "1 ? 2", "1 ? 2 :", "1 ? 2 : 3 ? 4 : 5", "x = ", "x += ", "= 1", "1 = 2", "x == ", "&&", "1 &&", "|| 1", "!", "!!", "√", "√√", "1 in", "in 1", "1 ** ", "%", "1 % ",
+	// complete programs whose LAST statement is each construct (no trailing return, with and without semicolon)
+	"a = 3; a > 2 ? \"big\" : \"small\"", "a = 3; a > 2 ? \"big\" : \"small\";", "x = 1; if (x) { y = 2; }", "x = 1; if (x) { y = 2; } else { y = 3; }", "x = 0; while (x < 2) { x++; }",
+	"foreach v in [1, 2] { x = v; }", "switch (1) { case 1 { x = 1; } }", "switch (2) { case 1 { x = 1; } default { x = 2; } }", "x = [1, 2][0]", "x = {\"a\": 1}", "len(\"x\")", "function f() { return 1; }",
+	"function f() { return 1; } f()", "x = 1; x++", "1 + 2", "!true", "-1", "x = 1 ? 2 : 3", "true ? f : g", "x = 1; x > 0 ? x : -x", "function f(a) { return a ? 1 : 2; } f(1) ? 1 : 2",
 	"\xef\xbb\xbfreturn 1;", "return 1;\r\n", "x = 1;\r\nreturn x;\r\n", "\xff\xfereturn 1;", "return 1;\x1a", "//", "// comment", "/* c", "#", "@", "$", "$x", "~", "^", "&", "|", "\\", "\x00", "\xff", "\xc3", "\xe2\x82", "\r", "\r\n", "\t", "é", "x\x00y", "return \"a\x00b\";",
 }
 
